@@ -263,14 +263,39 @@ def gen_case(rng: Rng, force=None):
     truth = [dy(rng, -2, 2) for _ in instruments]
     prior = [rng.choice([0.0, 0.0, dy(rng, -1, 1)]) for _ in instruments]
     init = {v: [dy(rng, -1, 1, 2), dy(rng, -1, 1, 2)] for v in names} if rng.chance(0.7) else {}
-    return {"spec": spec, "N": N, "mode": mode, "method": method, "targets": [list(c) for c in targets],
+    stages, stage_methods = None, None
+    if k >= 2 and rng.chance(0.45):
+        # one plan object used for several simulations: points are added (or switched off with status=False) in between
+        every = list(range(k))
+        stages = []
+        for _ in range(rng.randint(2, 3)):
+            sub = sorted(rng.sample(every, rng.randint(1, k)))
+            if not stages or sub != stages[-1]:
+                stages.append(sub)
+        if len(stages) < 2:
+            stages = [sorted(rng.sample(every, k - 1)), every]
+        other = {"first_order": "stacked_time", "stacked_time": "first_order"}[method]
+        may_switch = not (method == "first_order" and mode == "unant")
+        stage_methods = [other if (may_switch and rng.chance(0.25)) else method for _ in stages]
+    return {"stages": stages, "stage_methods": stage_methods,
+            "spec": spec, "N": N, "mode": mode, "method": method, "targets": [list(c) for c in targets],
             "instruments": [list(c) for c in instruments], "truth": truth, "prior": prior,
             "background": [[list(c), v] for c, v in background], "init": init, "scramble": rng.chance(0.5),
             "scramble_seed": rng.randint(0, 10**6)}
 
 
+def stages_of(case):
+    """the sequence of (active pair indices, method) simulated with ONE plan object; an unstaged case is one stage with every pair"""
+    k = len(case["targets"])
+    st = case.get("stages") or [list(range(k))]
+    ms = case.get("stage_methods") or [case["method"]] * len(st)
+    return list(zip(st, ms))
+
+
 def run_impl(case):
-    """the round trip on the implementation; returns a dict of arrays or {'error': ...}"""
+    """the round trip on the implementation: one first leg, then one planned simulation per stage, all stages on the same
+    `SimulationPlan` object (points added with status=True, removed with status=False between the simulations).
+    Returns a list of (subcase, result) per stage; result has 'sim2' or 'error'."""
     spec, N, mode, method = case["spec"], case["N"], case["mode"], case["method"]
     m, ok = build_model(spec)
     names = spec["names"]
@@ -292,29 +317,48 @@ def run_impl(case):
     for (sh, t), val in zip(case["instruments"], case["truth"]):
         set_cell(db, sh, t, val)
     sim1 = simulate(m, db, N, method)
-    # second leg: targets from sim1, instruments reset to a prior value, everything else as in the first input
-    db2 = sim1.copy()
-    for (sh, t), p in zip(case["instruments"], case["prior"]):
-        set_cell(db2, sh, t, p)
-    if case["scramble"]:
-        r = Rng(case["scramble_seed"])
-        tset = {(v, t) for v, t in case["targets"]}
-        for v in names:
-            for t in range(N):
-                if (v, t) not in tset:
-                    set_cell(db2, v, t, get_cell(db2, v, t) + r.dyadic(-2, 2))
     plan = ir.SimulationPlan(m, span)
     suffix = "anticipated" if mode == "ant" else "unanticipated"
-    for (v, t) in case["targets"]:
-        getattr(plan, "exogenize_" + suffix)((START + t,), v)
-    for (sh, t) in case["instruments"]:
-        getattr(plan, "endogenize_" + suffix)((START + t,), sh)
-    out = {"m": m, "db1": db, "sim1": sim1, "db2": db2, "plan": plan}
-    try:
-        out["sim2"] = simulate(m, db2, N, method, plan=plan)
-    except Exception as e:
-        out["error"] = f"{type(e).__name__}: {str(e)[:120]}"
-    return out
+    active: set = set()
+    results = []
+    staged = len(stages_of(case)) > 1
+    for si, (want, stage_method) in enumerate(stages_of(case)):
+        want = set(want)
+        for i in sorted(want - active):
+            (v, t), (sh, ts) = case["targets"][i], case["instruments"][i]
+            getattr(plan, "exogenize_" + suffix)((START + t,), v)
+            getattr(plan, "endogenize_" + suffix)((START + ts,), sh)
+        for i in sorted(active - want):
+            (v, t), (sh, ts) = case["targets"][i], case["instruments"][i]
+            getattr(plan, "exogenize_" + suffix)((START + t,), v, status=False)
+            getattr(plan, "endogenize_" + suffix)((START + ts,), sh, status=False)
+        active = want
+        idx = sorted(active)
+        sub = dict(case, targets=[case["targets"][i] for i in idx], instruments=[case["instruments"][i] for i in idx],
+                   truth=[case["truth"][i] for i in idx], prior=[case["prior"][i] for i in idx], method=stage_method)
+        if staged:
+            sub["stage"] = si
+            sub["full"] = case
+            sub.pop("stages", None)
+            sub.pop("stage_methods", None)
+        # second leg: targets from sim1, active instruments reset to a prior value (the others stay as known shocks)
+        db2 = sim1.copy()
+        for (sh, t), p in zip(sub["instruments"], sub["prior"]):
+            set_cell(db2, sh, t, p)
+        if case["scramble"]:
+            r = Rng(case["scramble_seed"] + si)
+            tset = {(v, t) for v, t in sub["targets"]}
+            for v in names:
+                for t in range(N):
+                    if (v, t) not in tset:
+                        set_cell(db2, v, t, get_cell(db2, v, t) + r.dyadic(-2, 2))
+        out = {"m": m, "db1": db, "sim1": sim1, "db2": db2, "plan": plan}
+        try:
+            out["sim2"] = simulate(m, db2, N, stage_method, plan=plan)
+        except Exception as e:
+            out["error"] = f"{type(e).__name__}: {str(e)[:120]}"
+        results.append((sub, out))
+    return results
 
 
 def all_names(spec):
@@ -540,41 +584,48 @@ def compare_case(ctx: Ctx, case, r, reply, cond):
 
 def run_cases(ctx: Ctx, cases, with_model=True):
     reqs, kept = [], []
-    for case in cases:
+    for full in cases:
         try:
-            r = run_impl(case)
+            staged = run_impl(full)
         except Exception as e:
             ctx.count("impl_first_leg_raises")
             continue
-        ctx.evaluations += 1
-        ctx.count(f"cond_{case['method']}_{case['mode']}")
-        ctx.count(f"targets_{len(case['targets'])}")
-        if case["mode"] == "ant" and any(not c[0].startswith("ant_") and c[1] > 0 for c, _ in case["background"]):
-            ctx.count("two_frames(ant plan + later unanticipated shock)")
-        try:
-            cond = cond_of(impact_numeric(case, r))
-        except Exception:
-            cond = float("inf")
-        if not math.isfinite(cond):
-            cond = float("inf")
-        ctx.count("cond_M<=1e2" if cond <= 1e2 else "cond_M<=1e4" if cond <= COND_MAX else "cond_M>1e4(no tolerance comparison)")
-        if "error" in r:
-            ctx.count(f"impl_rejects:{r['error'].split(':')[0]}")
-            if cond <= COND_MAX:
+        if len(staged) > 1:
+            ctx.count(f"staged_cases(one plan object, {len(staged)} simulations)")
+        for case, r in staged:
+            ctx.evaluations += 1
+            tag = "stage>0:" if case.get("stage", 0) > 0 else ""
+            ctx.count(f"{tag}cond_{case['method']}_{case['mode']}")
+            ctx.count(f"{tag}targets_{len(case['targets'])}")
+            if case["mode"] == "ant" and any(not c[0].startswith("ant_") and c[1] > 0 for c, _ in case["background"]):
+                ctx.count("two_frames(ant plan + later unanticipated shock)")
+            try:
+                cond = cond_of(impact_numeric(case, r))
+            except Exception:
+                cond = float("inf")
+            if not math.isfinite(cond):
+                cond = float("inf")
+            ctx.count("cond_M<=1e2" if cond <= 1e2 else "cond_M<=1e4" if cond <= COND_MAX else "cond_M>1e4(no tolerance comparison)")
+            if cond > COND_MAX:
+                continue
+            if "error" in r:
+                ctx.count(f"impl_rejects:{r['error'].split(':')[0]}")
                 ctx.fail(f"identified-plan-rejected-{case['method']}-{case['mode']}", case,
                          f"exactly identified plan with cond(M)={cond:.3g} raises {r['error']}")
-        else:
-            if oracle_case(ctx, case, r, cond):
-                ctx.nontriv((case["method"], case["mode"], len(case["targets"]), len(case["spec"]["names"]),
-                             tuple(sorted(t for _, t in case["targets"])), tuple(sorted(t for _, t in case["instruments"]))))
-        ctx.sample({"stream": "cond", "mode": case["mode"], "method": case["method"], "targets": case["targets"],
-                    "instruments": case["instruments"], "model": model_source(case["spec"]), "cond_M": cond})
-        if with_model:
-            try:
-                reqs.append(lean_request(case, r))
-                kept.append((case, r, cond))
-            except Exception as e:
-                ctx.count("request_build_failed")
+            else:
+                if oracle_case(ctx, case, r, cond):
+                    ctx.nontriv((case["method"], case["mode"], len(case["targets"]), len(case["spec"]["names"]),
+                                 tuple(sorted(t for _, t in case["targets"])), tuple(sorted(t for _, t in case["instruments"])),
+                                 case.get("stage", 0)))
+            ctx.sample({"stream": "cond", "mode": case["mode"], "method": case["method"], "targets": case["targets"],
+                        "instruments": case["instruments"], "model": model_source(case["spec"]), "cond_M": cond,
+                        "stage": case.get("stage", 0), "stages": full.get("stages")})
+            if with_model:
+                try:
+                    reqs.append(lean_request(case, r))
+                    kept.append((case, r, cond))
+                except Exception as e:
+                    ctx.count("request_build_failed")
     if with_model and reqs:
         replies = ctx.model("C07", reqs)
         if replies is not None:
@@ -628,7 +679,16 @@ def gen_plan_line(rng: Rng) -> str:
     return (f"plan {NP} 3 3 | {';'.join(ops)} | {','.join(map(str, qper))} | {','.join(map(str, cols))} | {first} | 0,1,2 | 0,1,2 | 6,7,8 | 3,4,5")
 
 
-def impl_plan_line(line: str) -> str:
+def prefix_lines(line: str) -> list[str]:
+    """the request with its first 0, 1, …, all ops: the model is a pure function of the op sequence, the implementation's plan
+    object is read after every op (a read must reflect every write made so far, whatever was read before)"""
+    secs = [s.strip() for s in line.split("|")]
+    ops = [o.strip() for o in secs[1].split(";") if o.strip()]
+    return [" | ".join([secs[0], ";".join(ops[:j])] + secs[2:]) for j in range(len(ops) + 1)]
+
+
+def impl_plan_prefixes(line: str) -> list[str]:
+    """one `SimulationPlan` object, read after every op; one reply per prefix of the op sequence"""
     from irispie.stacked_time import simulators as st
     from irispie.wrongdoings import IrisPieCritical, IrisPieError
     m = plan_model()
@@ -636,6 +696,60 @@ def impl_plan_line(line: str) -> str:
     NP = int(secs[0].split()[1])
     span = START >> START + (NP - 1)
     plan = ir.SimulationPlan(m, span)
+    qper = tuple(START + int(t) for t in secs[2].split(","))
+    cols = tuple(int(c) for c in secs[3].split(","))
+    first = int(secs[4])
+    periods_to_run = tuple(START + first + i for i in range(len(cols)))
+    show = lambda l: ";".join(f"{q}:{c}" for q, c in l)
+
+    def snapshot(outs):
+        def arr(k):
+            return bits_text(plan.get_register_as_bool_array(KINDS[k], periods=qper).tolist())
+        wrt, exo = st._get_wrt_spots(plan=plan, endogenous_qids=(0, 1, 2), columns_to_run=cols, periods_to_run=periods_to_run,
+                                     name_to_qid=m.create_name_to_qid())
+        return (",".join(outs) + f" | ea={arr('ea')} na={arr('na')} eu={arr('eu')} nu={arr('nu')} | empty={'T' if plan.is_empty else 'F'} "
+                f"antx={'T' if plan.any_endogenized_anticipated_except_start else 'F'} | wrt={show(wrt)} | exo={show(sorted(exo))}")
+
+    outs = []
+    replies = [snapshot(outs)]
+    for op in [o.strip() for o in secs[1].split(";") if o.strip()]:
+        _, k, stt, per, nm = op.split()
+        reg = KINDS[k]
+        rownames = list(getattr(plan, "can_be_" + reg))
+        nms = [rownames[int(i)] if int(i) < len(rownames) else "nope" for i in nm.split(",")]
+        pers = tuple(START + int(t) for t in per.split(","))
+        try:
+            getattr(plan, ("exogenize_" if k[0] == "e" else "endogenize_") + reg.split("_")[1])(pers, nms, status=(stt == "T"))
+            outs.append("ok")
+        except IrisPieCritical:
+            outs.append("err:name")
+        except IrisPieError:
+            outs.append("err:period")
+        replies.append(snapshot(outs))
+    return replies
+
+
+def oracle_plan_reads(ctx: Ctx, line: str, replies: list[str]):
+    """independent of the model: what one plan object reports after a sequence of writes equals what a FRESH plan object
+    reports after the same writes (no state other than the registers may influence a read)"""
+    secs = [s.strip() for s in line.split("|")]
+    ops = [o.strip() for o in secs[1].split(";") if o.strip()]
+    if not ops:
+        return
+    once = impl_plan_once(line)
+    if once != replies[-1]:
+        ctx.fail("plan-read-depends-on-earlier-reads", {"line": line},
+                 f"after the same writes: plan read after every write reports {replies[-1][:300]} / plan read once reports {once[:300]}")
+
+
+def impl_plan_once(line: str) -> str:
+    """all ops on a fresh plan, then a single read"""
+    from irispie.stacked_time import simulators as st
+    from irispie.wrongdoings import IrisPieCritical, IrisPieError
+    m = plan_model()
+    secs = [s.strip() for s in line.split("|")]
+    NP = int(secs[0].split()[1])
+    plan = ir.SimulationPlan(m, START >> START + (NP - 1))
     outs = []
     for op in [o.strip() for o in secs[1].split(";") if o.strip()]:
         _, k, stt, per, nm = op.split()
@@ -651,17 +765,19 @@ def impl_plan_line(line: str) -> str:
         except IrisPieError:
             outs.append("err:period")
     qper = tuple(START + int(t) for t in secs[2].split(","))
-    def arr(k):
-        a = plan.get_register_as_bool_array(KINDS[k], periods=qper)
-        return bits_text(a.tolist())
     cols = tuple(int(c) for c in secs[3].split(","))
     first = int(secs[4])
     periods_to_run = tuple(START + first + i for i in range(len(cols)))
+    show = lambda l: ";".join(f"{q}:{c}" for q, c in l)
+    arr = lambda k: bits_text(plan.get_register_as_bool_array(KINDS[k], periods=qper).tolist())
     wrt, exo = st._get_wrt_spots(plan=plan, endogenous_qids=(0, 1, 2), columns_to_run=cols, periods_to_run=periods_to_run,
                                  name_to_qid=m.create_name_to_qid())
-    show = lambda l: ";".join(f"{q}:{c}" for q, c in l)
     return (",".join(outs) + f" | ea={arr('ea')} na={arr('na')} eu={arr('eu')} nu={arr('nu')} | empty={'T' if plan.is_empty else 'F'} "
             f"antx={'T' if plan.any_endogenized_anticipated_except_start else 'F'} | wrt={show(wrt)} | exo={show(sorted(exo))}")
+
+
+def impl_plan_line(line: str) -> str:
+    return impl_plan_once(line)
 
 
 def oracle_plan_line(ctx: Ctx, line: str, impl: str):
@@ -686,25 +802,40 @@ def oracle_plan_line(ctx: Ctx, line: str, impl: str):
 
 def run_plan_stream(ctx: Ctx, n):
     rng = ctx.rng.fork("plan")
-    lines = [gen_plan_line(rng) for _ in range(n)]
-    impl = []
-    for l in lines:
+    seqs = [gen_plan_line(rng) for _ in range(n)]
+    lines, impl = [], []
+    for l in seqs:
+        pre = prefix_lines(l)
         try:
-            impl.append(impl_plan_line(l))
+            rep = impl_plan_prefixes(l)
         except Exception as e:
-            impl.append("raises:" + type(e).__name__)
+            rep = ["raises:" + type(e).__name__] * len(pre)
+        lines += pre
+        impl += rep
+        try:
+            oracle_plan_reads(ctx, l, rep)
+        except Exception as e:
+            ctx.count("plan_read_oracle_raises")
     ctx.compare("plan", lines, impl, ctx.model("C07", lines))
     for l, o in zip(lines, impl):
         oracle_plan_line(ctx, l, o)
     ctx.evaluations += len(lines)
-    ctx.count("plan_lines", len(lines))
-    if lines:
-        ctx.sample({"stream": "plan", "request": lines[0], "implementation": impl[0]})
+    ctx.count("plan_sequences", len(seqs))
+    ctx.count("plan_reads(one object, read after every op)", len(lines))
+    if seqs:
+        ctx.sample({"stream": "plan", "request": seqs[0], "implementation_after_every_op": impl[:len(prefix_lines(seqs[0]))][-2:]})
 
 
 # ---------------------------------------------------------------------------------------
 # entry points
 # ---------------------------------------------------------------------------------------
+
+def unwrap(case):
+    """the full (possibly staged) case behind a reported stage"""
+    while isinstance(case, dict) and "full" in case:
+        case = case["full"]
+    return case
+
 
 def corpus_cases():
     d = os.path.join(VERIF, "corpus", "C07")
@@ -713,9 +844,7 @@ def corpus_cases():
         for f in sorted(os.listdir(d)):
             if f.endswith(".json"):
                 p = json.load(open(os.path.join(d, f)))
-                c = p.get("case", p)
-                if isinstance(c, dict) and "full" in c:
-                    c = c["full"]
+                c = unwrap(p.get("case", p))
                 if isinstance(c, dict) and "spec" in c:
                     out.append(c)
     return out
@@ -735,12 +864,12 @@ def run(ctx: Ctx):
         if c is not None:
             cases.append(c)
     run_cases(ctx, cases)
-    run_plan_stream(ctx, ctx.n(400, 6000))
+    run_plan_stream(ctx, ctx.n(250, 3000))
 
 
 def search(ctx: Ctx, seeds):
     """failing-input search on the real code (oracles only): the disagreeing cases first, then the generator with a bigger budget"""
-    seeds = [s.get("full", s) for s in seeds if isinstance(s, dict)]
+    seeds = [unwrap(s) for s in seeds if isinstance(s, dict)]
     run_cases(ctx, [s for s in seeds if "spec" in s], with_model=False)
     rng = ctx.rng.fork("search")
     cases = []
@@ -749,23 +878,24 @@ def search(ctx: Ctx, seeds):
         if c is not None:
             cases.append(c)
     run_cases(ctx, cases, with_model=False)
-    lines = [gen_plan_line(rng) for _ in range(3000)]
+    lines = [gen_plan_line(rng) for _ in range(1500)]
     for l in lines:
         try:
-            oracle_plan_line(ctx, l, impl_plan_line(l))
+            rep = impl_plan_prefixes(l)
+            oracle_plan_reads(ctx, l, rep)
+            oracle_plan_line(ctx, l, rep[-1])
         except Exception:
             pass
 
 
 def replay(ctx: Ctx, payload):
-    case = payload.get("case", payload)
-    if isinstance(case, dict) and "full" in case:
-        case = case["full"]
+    case = unwrap(payload.get("case", payload))
     if isinstance(case, dict) and "spec" in case:
         run_cases(ctx, [case])
     elif isinstance(case, dict) and "line" in case or isinstance(case, str):
         line = case["line"] if isinstance(case, dict) else case
-        impl = impl_plan_line(line)
-        ctx.compare("plan", [line], [impl], ctx.model("C07", [line]))
-        oracle_plan_line(ctx, line, impl)
-        ctx.evaluations += 1
+        pre, rep = prefix_lines(line), impl_plan_prefixes(line)
+        ctx.compare("plan", pre, rep, ctx.model("C07", pre))
+        oracle_plan_reads(ctx, line, rep)
+        oracle_plan_line(ctx, line, rep[-1])
+        ctx.evaluations += len(pre)
